@@ -85,7 +85,8 @@ def init_ref(cfg):
     }
 
 
-GEOMS = {0: ([0.8, 0.9], [0.3, 0.1, -0.2]), 1: ([0.5, 1.3], [1.1, -0.4, 0.6]), 2: ([1.0, 1.0], [0.0, 0.0, 0.0])}
+# (3: all ratios 1 but rotated - "isotropic" for the anisotropy test, not for the coordinate transform)
+GEOMS = {0: ([0.8, 0.9], [0.3, 0.1, -0.2]), 1: ([0.5, 1.3], [1.1, -0.4, 0.6]), 2: ([1.0, 1.0], [0.0, 0.0, 0.0]), 3: ([1.0, 1.0], [0.8, 0.5, -0.3])}
 
 
 def make_model(ref):
@@ -331,6 +332,7 @@ def ops_for(cfg, tier="quick"):
     A({"k": "model_assign", "len_scale": 3.5})
     A({"k": "model_geom", "v": 1})
     A({"k": "model_geom", "v": 2})
+    A({"k": "model_geom", "v": 3})
     A({"k": "call", "pos": None, "seed": "s2", "store": False})
     v = cfg["variant"]
     if v == "Simple":
